@@ -193,10 +193,19 @@ def run(ctx, model):
         recv_case("recv-fault", f, script, "comm")
 
     # ---- send
-    for i in range(ctx.budget(400, 4000)):
+    # the largest frames the encapsulation header can describe (24 + 65511 = 65535 bytes) and their neighbours, whole and
+    # under partial sends: every byte must reach the socket
+    edge = [(n, acc) for n in (65535, 65534, 65533, 24 + 65511 - 1, 24 + 4000, 65536)
+            for acc in ([], [1, 1], [1460] * 3, [4096] * 20, [65534], [65535], [30000, 30000])]
+    for i in range(ctx.budget(400, 4000) + len(edge)):
         msg = bytes(rng.getrandbits(8) for _ in range(rng.choice([0, 1, 2, 5, 24, 100, 600, 4096])))
         r = rng.random()
-        if r < 0.6:
+        if i < len(edge):
+            msg = bytes(rng.getrandbits(8) for _ in range(64)) * (edge[i][0] // 64 + 1)
+            msg = msg[:edge[i][0]]
+            accepts = list(edge[i][1])
+            ctx.count("send/edge-size/%d" % len(msg))
+        elif r < 0.6:
             accepts = [rng.choice([1, 1, 2, 3, 7, 100, 5000]) for _ in range(rng.randint(0, 12))]
         elif r < 0.8:
             accepts = [rng.choice([1, 2, 5]) for _ in range(rng.randint(0, 4))] + [0]
